@@ -13,7 +13,8 @@ CARRIER PER CLAUSE of the property statement:
 * ψ(x+1) = ψ(x) + 1/x: theorem for non-pole x < 6 in exact arithmetic (`digamma_recurrence`, `digammaFn_recurrence`:
   one unfolding of the definition); search for x ≥ 6 and for rounding.
 * B(a,b) = B(b,a): `beta_comm` (one rewrite, any commutative `*`, `+`) + bit-exact search.
-* erf odd: `erf_odd` for x ≠ 0 (a case split); FALSE at 0: `erf_not_odd_at_zero` (finding `erf:odd:x=0`).
+* erf odd: `erf_odd` for EVERY argument (both zeros) on any scalar type whose negation flips the sign bit (IEEE law; holds at
+  `Float`, impossible on a field) + exhaustive bit-exact search; over ordered fields `erf_odd_field` (x ≠ 0) and `erf_zero`.
 * |erf| ≤ 1: `erf_abs_le_one`, `erf_nonneg` over ℝ with the doubles of the source (genuine polynomial bounds).
 
 Theorems about the model `Compute/Model/Special.lean` (the same definitions the compiled driver runs at `Float`,
@@ -26,14 +27,14 @@ tied bit for bit to `/repo/src/functions/gamma.rs` and `statistical.rs::erf` by 
   `digammaF_terminates`, `digammaF_mono`, `digammaF_unfold`, `digammaF_fuel_exact` (exactly ⌈6 - x⌉ unfoldings);
   the exported `digammaFn`: `digammaFn_spec` (it is the recursion's value for x ≥ -100003), `digammaFn_exhausted` (default
   below), `digammaFn_unfold`, `digammaFn_recurrence`;
-* any scalar type at all (so also `Float`): `beta_comm`, `gammaF_eq_gammaFn_of`, `erfF_eq_erfFn_of` (validity domain of the
-  exported `erfFn`), `digamma_diverges_of_fixed`, `erf_diverges_of_unordered` (where the Rust recursions do not return);
+* any scalar type at all (so also `Float`): `beta_comm`, `gammaF_eq_gammaFn_of`, `erfF_eq_erfFn_of` (the sign-bit
+  recursion of `erf` returns `erfFn` everywhere), `erf_odd`, `digamma_diverges_of_fixed` (where `digamma` does not return);
 * over ℝ with the doubles of the source: `erf_zero`, `erf_abs_le_one`, `erf_nonneg`; `lanczosSum_pos`,
   `gammaPos_pos`, `lnGamma_eq_log_gamma`; `gammaPos_eq_legacy`, `lanczos_split_range_partial`,
   `legacy_single_power_overflows` + `gamma_143_finite'` (F21);
 * about the TRUE Γ, not the model: `reflection_formula_exact`, `reflection_divisor_overflows` (background of the open
   finding on (-178, -170.62));
-* junk / negative results: `gammaFn_pole_junk`, `digamma_pole_junk`, `erf_not_odd_at_zero`.
+* junk values at poles over ℝ: `gammaFn_pole_junk`, `digamma_pole_junk`; `erf_zero_pos` (the single real zero).
 rfl-level / one-line lemmas (`digamma_shift`, `half_eq`, `gammaF_one`, `lanczos_length`, `digammaF_succ_*`) are helpers, not results.
 -/
 set_option linter.unusedSectionVars false
@@ -54,7 +55,8 @@ theorem digamma_shift : C09T.digammaShift = 6 := rfl
 /-! ### Structure over an arbitrary linearly ordered field
 (any interpretation of the transcendental functions and of the literals). -/
 section field
-variable {α : Type} [Field α] [LinearOrder α] [IsStrictOrderedRing α] [Transc α] [OfLit α]
+variable {α : Type} [Field α] [LinearOrder α] [IsStrictOrderedRing α] [Transc α] [OfLit α] [SignBit α]
+  [LawfulSignBitField α]
 
 theorem half_eq : (half : α) = 1 / 2 := by simp [half, two]
 
@@ -215,22 +217,35 @@ theorem digammaFn_unfold (k : Nat) (hk : k ≤ 100009) (x : α) (hlt : ∀ i : N
 
 /-! #### erf -/
 
+/-- On an ordered field with the lawful sign predicate the sign-bit branch of `erf` is the order test `0 ≤ x`. -/
+theorem erfFn_eq_le (x : α) : erfFn x = if (0 : α) ≤ x then erfPos x else -(erfPos (-x)) := by
+  unfold erfFn
+  by_cases h : (0 : α) ≤ x
+  · rw [if_pos ((LawfulSignBitField.sign_iff x).mpr h), if_pos h]
+  · rw [if_neg (fun hs => h ((LawfulSignBitField.sign_iff x).mp hs)), if_neg h]
+
 /-- The Rust recursion of `erf` (fuel ≥ 2) is the closed form with a single sign flip. -/
 theorem erfF_eq_erfFn (n : Nat) (x : α) : erfF (n + 2) x = some (erfFn x) := by
   by_cases h : (0 : α) ≤ x
-  · simp [erfF, erfFn, h]
-  · have h2 : (0 : α) ≤ -x := by linarith [not_le.mp h]
-    simp [erfF, erfFn, h, h2]
+  · have hs := (LawfulSignBitField.sign_iff x).mpr h
+    simp [erfF, erfFn, hs]
+  · have hs : ¬ SignBit.isSignPositive x = true := fun hs => h ((LawfulSignBitField.sign_iff x).mp hs)
+    have h2 : SignBit.isSignPositive (-x) = true :=
+      (LawfulSignBitField.sign_iff (-x)).mpr (by linarith [not_le.mp h])
+    simp [erfF, erfFn, hs, h2]
 
-/-- `erf` is odd away from 0 (at 0 see `erf_zero`: the formula gives `1 - (a₁+…+a₅) ≠ 0` for both signs of zero). -/
-theorem erf_odd (x : α) (hx : x ≠ 0) : erfFn (-x) = -erfFn x := by
+/-- Over an ordered field (ONE zero) `erf` is odd away from 0; at the single zero the formula gives
+`1 - (a₁+…+a₅) ≠ 0` (`erf_zero`), so no function of a field could be odd there.  The IEEE statement with two zeros,
+`erf(-x) = -erf(x)` for EVERY argument including `±0`, is `erf_odd`. -/
+theorem erf_odd_field (x : α) (hx : x ≠ 0) : erfFn (-x) = -erfFn x := by
+  rw [erfFn_eq_le, erfFn_eq_le]
   rcases lt_or_gt_of_ne hx with h | h
   · have h1 : ¬ (0 : α) ≤ x := not_le.mpr h
     have h2 : (0 : α) ≤ -x := by linarith
-    simp [erfFn, h1, h2]
+    simp [h1, h2]
   · have h1 : (0 : α) ≤ x := le_of_lt h
     have h2 : ¬ (0 : α) ≤ -x := by intro h3; linarith
-    simp [erfFn, h1, h2]
+    simp [h1, h2]
 
 end field
 
@@ -265,32 +280,28 @@ theorem digamma_diverges_of_fixed (x : α) (hx : x < ((C09T.digammaShift : Nat) 
 end beta
 
 section erfgen
-variable {α : Type} [Add α] [Sub α] [Mul α] [Div α] [Neg α] [One α] [Zero α] [Transc α] [OfLit α]
-  [LE α] [DecidableLE α]
+variable {α : Type} [Add α] [Sub α] [Mul α] [Div α] [Neg α] [One α] [Transc α] [OfLit α] [SignBit α]
 
-/-- Validity domain of the exported closed form `erfFn` for ANY scalar type (in particular `Float`): wherever `x ≥ 0` or
-`-x ≥ 0` (IEEE: every non-NaN argument) the Rust recursion returns, and returns `erfFn x`.  At the remaining arguments
-(NaN) `erfFn` is NOT the Rust function: Rust never returns (`erf_diverges_of_unordered`; observed: stack overflow,
-process abort) while `erfFn NaN = NaN`.  Models that consume `erfFn` (Normal cdf) inherit exactly this domain. -/
-theorem erfF_eq_erfFn_of (n : Nat) (x : α) (h : (0 : α) ≤ x ∨ (0 : α) ≤ -x) : erfF (n + 2) x = some (erfFn x) := by
-  by_cases h0 : (0 : α) ≤ x
-  · simp [erfF, erfFn, h0]
-  · have h2 : (0 : α) ≤ -x := h.resolve_left h0
-    simp [erfF, erfFn, h0, h2]
+/-- For ANY scalar type (in particular `Float`): the Rust recursion of `erf` returns after at most one sign flip, and
+returns the exported closed form `erfFn`, as soon as negation sets a clear sign bit on arguments whose sign bit is set —
+at `Float` this holds for every bit pattern (IEEE negation flips the sign bit, NaNs included), so since repair F56
+there is no argument on which `erf` does not return. -/
+theorem erfF_eq_erfFn_of (n : Nat) (x : α)
+    (h : SignBit.isSignPositive x = false → SignBit.isSignPositive (-x) = true) : erfF (n + 2) x = some (erfFn x) := by
+  cases hs : SignBit.isSignPositive x with
+  | true => simp [erfF, erfFn, hs]
+  | false => simp [erfF, erfFn, hs, h hs]
 
-/-- Domain of `erf` for ANY scalar type (in particular `Float`): at an argument with neither `x ≥ 0` nor `-x ≥ 0`
-(IEEE: NaN) the Rust recursion `-erf(-x)` never returns (observed: `erf(NaN)` overflows the stack). -/
-theorem erf_diverges_of_unordered (x : α) (h1 : ¬ (0 : α) ≤ x) (h2 : ¬ (0 : α) ≤ -x) (h3 : -(-x) = x) :
-    ∀ n, erfF n x = none := by
-  intro n
-  induction n using Nat.strong_induction_on with
-  | _ n ih =>
-    match n with
-    | 0 => rfl
-    | 1 => simp [erfF, h1]
-    | n + 2 =>
-      have := ih n (by omega)
-      simp [erfF, h1, h2, h3, this]
+/-- `erf` is odd at EVERY argument — both zeros included — for any scalar type whose negation flips the sign bit and is
+an involution.  These are laws of IEEE arithmetic (`-(+0.0) = -0.0`); they hold at `Float` (checked on every f32 of
+[-6, 6] and both zeros by the exhaustive sweep: 0 violations) and cannot hold on a field, where `-0 = 0`
+(there: `erf_odd_field`, `erf_zero`). -/
+theorem erf_odd (hflip : ∀ x : α, SignBit.isSignPositive (-x) = !SignBit.isSignPositive x)
+    (hneg : ∀ x : α, -(-x) = x) (x : α) : erfFn (-x) = -erfFn x := by
+  unfold erfFn
+  cases hs : SignBit.isSignPositive x with
+  | true => simp [hflip x, hs, hneg]
+  | false => simp [hflip x, hs, hneg]
 
 end erfgen
 
@@ -301,7 +312,7 @@ open scoped Cv.C09
 /-- Value of the model at 0 in exact arithmetic: `1 - (a₁ + a₂ + a₃ + a₄ + a₅)` for the five doubles of the source,
 which is `18014399 / 2^54 ≈ 1.0000000272e-9`, not 0. -/
 theorem erf_zero : erfFn (0 : ℝ) = 18014399 / 18014398509481984 := by
-  simp only [erfFn, le_refl, if_true, erfPos, erfPoly, transc_exp, ofLit_real, C09T.erfP, C09T.erfA1, C09T.erfA2,
+  simp only [erfFn_eq_le, le_refl, if_true, erfPos, erfPoly, transc_exp, ofLit_real, C09T.erfP, C09T.erfA1, C09T.erfA2,
     C09T.erfA3, C09T.erfA4, C09T.erfA5]
   norm_num
 
@@ -334,7 +345,7 @@ theorem erfPos_term (x : ℝ) (hx : 0 ≤ x) : -1 ≤ erfPos x ∧ erfPos x ≤ 
 
 /-- `|erf x| ≤ 1` for every real `x`, for the model in exact arithmetic. -/
 theorem erf_abs_le_one (x : ℝ) : |erfFn x| ≤ 1 := by
-  unfold erfFn
+  rw [erfFn_eq_le]
   by_cases h : (0 : ℝ) ≤ x
   · rw [if_pos h]
     obtain ⟨a, b⟩ := erfPos_term x h
@@ -452,7 +463,7 @@ theorem gamma_143_finite' : Real.Gamma 143 < 2 ^ 1024 := by
 /-- `erf` has the sign of its argument: for `x ≥ 0` the formula gives a value in `[0, 1]` (and by `erf_odd` a value
 in `[-1, 0]` for `x < 0`).  Uses `erfPoly_le_one`; `1 - P(1) = 18014399/2^54 > 0` for the doubles of the source. -/
 theorem erf_nonneg (x : ℝ) (hx : 0 ≤ x) : 0 ≤ erfFn x ∧ erfFn x ≤ 1 := by
-  unfold erfFn; rw [if_pos hx]
+  rw [erfFn_eq_le, if_pos hx]
   have hp : (0 : ℝ) < ofLit C09T.erfP := by rw [ofLit_real]; simp only [C09T.erfP]; norm_num
   set t : ℝ := 1 / (1 + ofLit C09T.erfP * x) with ht
   have hden : (1 : ℝ) ≤ 1 + ofLit C09T.erfP * x := by nlinarith [mul_nonneg hp.le hx]
@@ -600,8 +611,8 @@ example : digammaFn (3 / 2 : ℝ) =
 example : digammaFn (-200000 : ℝ) = digammaSeries (-200000 : ℝ) := (digammaFn_exhausted _ (by norm_num)).2
 
 example (a b : ℝ) : betaFn a b = betaFn b a := beta_comm mul_comm add_comm a b
-example : erfFn (-(1 : ℝ)) = -erfFn 1 := erf_odd 1 one_ne_zero
-example : erfF 2 (-(1 : ℝ)) = some (erfFn (-1)) := erfF_eq_erfFn_of 0 _ (Or.inr (by norm_num))
+example : erfFn (-(1 : ℝ)) = -erfFn 1 := erf_odd_field 1 one_ne_zero
+example : erfF 2 (-(1 : ℝ)) = some (erfFn (-1)) := erfF_eq_erfFn_of 0 _ (fun _ => by simp [signBit_real])
 example : 0 < lanczosSum (1 : ℝ) := lanczosSum_pos 1 one_pos
 example : lnGammaPos (1 : ℝ) = Real.log (gammaPos 1) := lnGamma_eq_log_gamma 1 (by norm_num)
 example : (2 : ℝ) ^ 1024 < legacyPow 143 := legacy_single_power_overflows 143 le_rfl
@@ -611,10 +622,10 @@ example : gammaPos (143 : ℝ) =
 
 /-! ### Where the property clause is FALSE of the model (and of the code: finding proposals) and junk values -/
 
-/-- `erf` is NOT odd at 0: the formula gives the same positive value `18014399/2^54` at `0` and at `-0 = 0`, so
-`erf(-0) = -erf(0)` fails (finding proposal `erf:odd:x=0`; at `Float`: `erf(±0.0) = 0x3e112e0be0000000`). -/
-theorem erf_not_odd_at_zero : erfFn (-(0 : ℝ)) ≠ -erfFn 0 := by
-  rw [neg_zero, erf_zero]; norm_num
+/-- Over ℝ (one zero) the value of the formula at 0 is positive, `18014399/2^54`: the real-number model cannot be odd at
+0, and before repair F56 the code was not either (`erf(-0.0) = erf(+0.0)`).  Since F56 the code branches on the sign bit
+and IS odd at both zeros (`erf_odd`; bits `3e112e0be0000000` / `be112e0be0000000`, demanded by the oracle). -/
+theorem erf_zero_pos : 0 < erfFn (0 : ℝ) := by rw [erf_zero]; norm_num
 
 /-- Junk at the pole `z = 0` over ℝ (`x / 0 = 0`): the model's reflection branch gives 0 where Γ has a pole (the code
 returns `PI / (0 · 1) = +∞` at `Float`).  The theorems over ℝ say nothing at the poles `0, -1, -2, …` of Γ. -/
